@@ -175,15 +175,28 @@ def run_closing_case(impl, case, out):
     try:
         sid = peer.sid_of(peer.open_polling(w))
         peer.poll(w, sid)
-        if how == 'post_close':
-            peer.post(w, sid, '1')
-        else:
-            w.call('disconnect', sid)
-            w.run()
-        # the disconnect handler is now asleep; the session is closing but not closed
-        nev = len(w.events)
         body = ('4' + 'a' * (declared - 1)).encode()
-        r = peer.post(w, sid, body, declared=declared)
+        if how.startswith('then_'):
+            # the other way round: the POST under test comes first (if it is oversize its own close suspends in the
+            # disconnect handler) and something else removes the session before it resumes
+            nev = len(w.events)
+            r = peer.post(w, sid, body, declared=declared)
+            if how == 'then_post':
+                peer.post(w, sid, '4x')
+            elif how == 'then_close':
+                peer.post(w, sid, '1')
+            else:
+                w.call('disconnect', sid)
+                w.run()
+        else:
+            if how == 'post_close':
+                peer.post(w, sid, '1')
+            else:
+                w.call('disconnect', sid)
+                w.run()
+            # the disconnect handler is now asleep; the session is closing but not closed
+            nev = len(w.events)
+            r = peer.post(w, sid, body, declared=declared)
         w.run_until(w.now + HORIZON)
         limit = min(declared, L)
         if impl == 'sync':
@@ -349,7 +362,7 @@ def jobs_for(ctx):
                 jobs.append(('small', impl, {'L': L, 'frames': ['4' + 'a' * (n - 1), '4' + 'b' * (n - 1)]}))
         for L in (10, 100):
             for declared in (L - 1, L, L + 1, 10 * L):
-                for how in ('post_close', 'api_disconnect'):
+                for how in ('post_close', 'api_disconnect', 'then_post', 'then_close', 'then_disconnect'):
                     jobs.append(('closing', impl, {'L': L, 'declared': declared, 'how': how}))
         for L in [6, 10, 100, 1000000]:
             for n in sorted({1, L - 1, L, L + 1, L + 2, 10 * L if L < 1000000 else L + 1000}):
@@ -377,7 +390,7 @@ def run(ctx):
         'rule': 'limits %r; POST bodies of length {0,1,L-2..L+2,10L} x declared length {actual,actual+-1,L,L+1,0} x '
                 '{text, base64} x ASGI chunking {one, many}%s; 0..18 (and 40, 100) packets per body, plain and as d= form bodies (quote, quote_plus, raw separators); frames of length '
                 '{1,L-1,L,L+1,L+2,10L} x {text,binary} x stage {first frame of a ws-only session, probe frame, second '
-                'handshake frame, steady state} x pending poll; POSTs around the limit arriving while the session is in the middle of closing (disconnect handler suspended); every case followed by %.0fs of virtual time and '
+                'handshake frame, steady state} x pending poll; POSTs around the limit arriving while the session is in the middle of closing (disconnect handler suspended), and the reverse order (the POST first, then another POST / CLOSE / disconnect(sid) while its close is suspended); every case followed by %.0fs of virtual time and '
                 'liveness probes; both servers. All cases distinct.' % (LIMITS, '' if ctx.quick else ' x pending poll on/off', HORIZON),
         'samples': [jobs[0][2], jobs[len(jobs) // 2][2], jobs[-1][2]],
         'exhaustive': True,
